@@ -217,10 +217,19 @@ def mutate_ast(rng, segs):
     segs = list(segs)
     i = rng.randrange(len(segs))
     s = segs[i]
-    if s[0] == "KEY":
+    specials = [j for j, c in enumerate(s[1]) if c in "./[]()'\" &"] if s[0] == "KEY" and isinstance(s[1], str) else []
+    if s[0] == "KEY" and specials and rng.random() < 0.5:
+        # the same key with a LITERAL backslash in front of one of its special characters: another key
+        j = rng.choice(specials)
+        segs[i] = ("KEY", s[1][:j] + "\\" + s[1][j:])
+    elif s[0] == "KEY":
         segs[i] = ("KEY", s[1] + "x")
     elif s[0] == "INDEX":
         segs[i] = ("INDEX", s[1] + 1)
+    elif s[0] == "SEARCH" and s[2] != "=~" and isinstance(s[4], str) and " " in s[4] and rng.random() < 0.5:
+        # the same term with a LITERAL backslash in front of a blank: another term
+        j = s[4].index(" ")
+        segs[i] = tuple(s[:4]) + (s[4][:j] + "\\" + s[4][j:],) + tuple(s[5:])
     elif s[0] == "SEARCH":
         segs[i] = ("SEARCH", not s[1]) + tuple(s[2:])
     elif s[0] == "ANCHOR":
